@@ -382,7 +382,7 @@ pub fn run(ctx: &Ctx) {
     ctx.subspace("256 fresh connections: first transmitted counters pairwise distinct, differences not constant", 256, true);
 
     // (a) lifetimes
-    let n: u32 = ctx.tier.pick(300, 5_000);
+    let n: u32 = ctx.tier.pick(2_000, 20_000);
     ctx.proptest(
         "pt-life",
         n,
